@@ -477,6 +477,8 @@ impl TTS {
                         // elements created from intent literals (e.g., '_of') have no id: there is nothing to mark
                         return Ok( "".to_string() );
                     }
+                    // the id goes into a single-quoted attribute of the engine's markup
+                    let id = id.replace('&', "&amp;").replace('<', "&lt;").replace('>', "&gt;").replace('\'', "&apos;");
                     return Ok( format!("<{}='{}'/>", tag_and_attr, id) );
                 },
                 _ => bail!("Implementation error: found bookmark value that did not evaluate to a string"),
